@@ -43,7 +43,8 @@ def cases(draw, big=False):
                 storage2=draw(st.sampled_from(["f8", "f4", "i2", "i2b"])),
                 # particles that die after the forcing was evaluated and are removed from the state (what a sparse
                 # output record does) before the tracker asks for the velocity of the survivors; 0 = nobody
-                drop=draw(st.sampled_from([0, 0, 0b0101101, 0b1000000000001, 0b11])), zhist=draw(st.booleans()),
+                drop=draw(st.sampled_from([0, 0, 0b0101101, 0b1000000000001, 0b11])),
+                zhist=draw(st.sampled_from([False, False, True, "inplace"])),
                 # the first frame happens to be clean (zero) on land faces, the second one is not
                 land0=draw(st.booleans()),
                 # vertical set-up given explicitly in the configuration (Vinfo) and deliberately different from
@@ -162,7 +163,10 @@ def ladim_sample(d, fname, sub, case, X, Y, Z, ffile=None, nupdates=1):
         state.append(X=X, Y=Y, Z=Z)
     for k_ in range(nupdates):
         if zhist and k_ == nupdates - 1:
-            state["Z"] = Z
+            if case.get("zhist") == "inplace":
+                state["Z"][:] = Z   # the way `state["Z"] += ...` in an IBM or the tracker's own `Z += w*dt` changes depth
+            else:
+                state["Z"] = Z
         timer.update()
         force.update()
     keep = np.ones(len(X), bool)
@@ -244,7 +248,7 @@ def oracle(case) -> core.CaseResult:
         X, Y, Z = positions(case, G, sub_eff)
         case = dict(case, _h=G["h"])
         if case.get("zhist") and fr == 1:
-            res.cls("depth_changed_before_the_last_update")
+            res.cls("depth_changed_before_the_last_update" + ("_in_place" if case["zhist"] == "inplace" else ""))
         nup = 1 if fr == 0 else 5   # Model.update order: clock, forcing; step 4 is the second frame
         try:
             got = ladim_sample(d, gfile, sub_cfg, case, X, Y, Z, ffile=ffile, nupdates=nup)
